@@ -10,8 +10,8 @@ use std::panic::{catch_unwind, AssertUnwindSafe};
 fn record(s: &str) -> Value {
     let r = catch_unwind(AssertUnwindSafe(|| s.parse::<NoiseParams>()));
     match r {
-        Err(_) => json!({"s": s, "ok": false, "err": "panic", "pat": "", "mods": [], "dh": "", "cipher": "", "hash": "", "verbatim": false}),
-        Ok(Err(e)) => json!({"s": s, "ok": false, "err": format!("{:?}", e), "pat": "", "mods": [], "dh": "", "cipher": "", "hash": "", "verbatim": false}),
+        Err(_) => json!({"s": s, "ok": false, "err": "panic", "pat": "", "mods": [], "dh": "", "kem": "", "cipher": "", "hash": "", "verbatim": false}),
+        Ok(Err(e)) => json!({"s": s, "ok": false, "err": format!("{:?}", e), "pat": "", "mods": [], "dh": "", "kem": "", "cipher": "", "hash": "", "verbatim": false}),
         Ok(Ok(p)) => {
             let mods: Vec<Value> = p
                 .handshake
@@ -21,6 +21,8 @@ fn record(s: &str) -> Value {
                 .map(|m| match m {
                     HandshakeModifier::Psk(n) => json!({"kind": "psk", "n": n}),
                     HandshakeModifier::Fallback => json!({"kind": "fallback", "n": 0}),
+                    #[cfg(feature = "hfs")]
+                    HandshakeModifier::Hfs => json!({"kind": "hfs", "n": 0}),
                 })
                 .collect();
             let dh = match p.dh {
@@ -39,7 +41,14 @@ fn record(s: &str) -> Value {
                 HashChoice::Blake2s => "BLAKE2s",
                 HashChoice::Blake2b => "BLAKE2b",
             };
-            json!({"s": s, "ok": true, "err": "", "pat": p.handshake.pattern.as_str(), "mods": mods, "dh": dh,
+            #[cfg(feature = "hfs")]
+            let kem = match p.kem {
+                Some(snow::params::KemChoice::Kyber1024) => "Kyber1024",
+                None => "",
+            };
+            #[cfg(not(feature = "hfs"))]
+            let kem = "";
+            json!({"s": s, "ok": true, "err": "", "pat": p.handshake.pattern.as_str(), "mods": mods, "dh": dh, "kem": kem,
                    "cipher": cipher, "hash": hash, "verbatim": p.name == s})
         },
     }
@@ -48,7 +57,7 @@ fn record(s: &str) -> Value {
 const INSERTS: &[&str] = &[
     "_", "+", "0", "1", "9", "k", "K", "N", "X", "p", "s", "psk", "psk1", "fallback", " ", "é", "€", "\u{1F600}", "\t", "-", ".", "/",
     "a", "Z", "2", "5", "S", "B", "4294967296", "18446744073709551616", "00000000001", "255", "256", "+psk0", "+psk00", "+psk01", "+psk1",
-    "+psk001", "+fallback", "+", "psk+",
+    "+psk001", "+fallback", "+", "psk+", "hfs", "+hfs", "hfs+", "+Kyber1024", "Kyber1024", "+Kyber512", "Kyber",
 ];
 
 pub fn main(o: &Opts) -> Result<i32, String> {
@@ -131,7 +140,7 @@ pub fn main(o: &Opts) -> Result<i32, String> {
     // (3) random strings over a small alphabet that makes near-misses likely
     let alpha: Vec<&str> = vec![
         "Noise", "_", "+", "N", "K", "X", "I", "1", "psk", "0", "2", "3", "fallback", "25519", "448", "P256", "ChaChaPoly", "AESGCM",
-        "XChaChaPoly", "SHA256", "SHA512", "BLAKE2s", "BLAKE2b", "hfs", "é", "", "a",
+        "XChaChaPoly", "SHA256", "SHA512", "BLAKE2s", "BLAKE2b", "hfs", "é", "", "a", "Kyber1024", "+Kyber1024",
     ];
     for _ in 0..nrandom {
         let len = 1 + rng.below(12) as usize;
